@@ -8,8 +8,8 @@ ENV = "GOFLAGS=-mod=mod GOPROXY=off GOSUMDB=off GOTOOLCHAIN=local GOWORK=off"
 
 # property -> (technique, level text, level note, design ref)
 CLAIMED = {
- "C01": ("parser tiling typestate over SSA with interprocedural summaries (TILE), who-may-construct check (WRAP), error-range check (ERRPOS)",
-         "Structural lemma, all paths: every parse function covers the runes it consumes with children (no gap before a child or after the last child), nodes are only built through the range-recording wrapper, and explicit error ranges are in-bounds forms. Termination and per-input error positions are not decided.",
+ "C01": ("parser tiling typestate over SSA with interprocedural summaries (TILE), who-may-construct check (WRAP), error-range check (ERRPOS); def-use identity of the parser's text with the caller's Source (SRC-IDENTITY)",
+         "Structural lemma, all paths: every parse function covers the runes it consumes with children (no gap before a child or after the last child), nodes are only built through the range-recording wrapper, and explicit error ranges are in-bounds forms. Termination and per-input error positions are not decided. SRC-IDENTITY: the parser works on Source.Code itself, so ranges index the caller's text.",
          "trusts go/ssa; the event vocabulary (next/backup/addSep/parse/addChild) is taken from pkg/parse; audit table: Compound.tilde"),
  "C02": ("who-may-write + expression-shape check on the Partial flag (PARTIAL-DEF), sibling agreement of the editor's completeness predicate (ENTER-AGREE), who-may/shape rule on the ranges handed to parser.errorp (ERROR-AT-POS)",
          "Decides clause 2 (an error is marked partial only when it starts at the end of the input) and that the editor's Enter decision uses that flag or the same end-of-input test; of the grammar-level clause 1 only the structural part is decided: every parse error is reported at the parser's position at the report (or a constant number of bytes before it), never at a saved position or over a node's range.",
